@@ -26,6 +26,40 @@ package backend
 // ... and also across the wrap 2^32-1 -> 0 (property text: ANY run of consecutive selections)
 //@ lemma rrStepAcrossWrap: forall(L int, L > 1 && L <= 1024 ==> ((4294967295 + 1) % 4294967296) % L == (4294967295 % L + 1) % L)
 
+// ---- the weighted queue: weights are normalised by a common divisor and every candidate gets weight/g >= 1 slots
+// Two facts about divisibility the SMT back ends do not derive (nonlinear); stated once as axioms (trusted arithmetic):
+// (mod is the mathematical remainder; for the non-negative operands used here it is Go's %)
+//@ axiom divTrans: forall(x int, forall(g int, forall(h int, g > 0 && h > 0 && mod(x, g) == 0 && mod(g, h) == 0 ==> mod(x, h) == 0)))
+//@ axiom euclidStep: forall(a int, forall(b int, forall(d int, b > 0 && d > 0 && mod(b, d) == 0 && mod(mod(a, b), d) == 0 ==> mod(a, d) == 0)))
+//@ property C25: gcd$1, gcd, newBalancer
+// Euclid's loop: the result is positive and divides both arguments
+//@ func gcd$1
+//@   requires a > 0 && b >= 0
+//@   assigns \nothing
+//@   loop 0(a,b) invariant cur(a) > 0 && cur(b) >= 0
+//@   loop 0(a,b) invariant forall(d int, d > 0 && mod(cur(a), d) == 0 && mod(cur(b), d) == 0 ==> mod(a, d) == 0 && mod(b, d) == 0)
+//@   ensures ret0 > 0 && mod(a, ret0) == 0 && mod(b, ret0) == 0
+// gcd of a weight list: a positive common divisor of every weight (1 for an empty list)
+//@ func gcd
+//@   requires forall(k, 0, len(ary), ary[k] > 0)
+//@   assigns \nothing
+//@   loop 0(i) invariant 1 <= i && i <= len(ary) && g > 0 && forall(k, 0, i, mod(ary[k], g) == 0)
+//@   ensures ret0 > 0 && forall(k, 0, len(ary), mod(ary[k], ret0) == 0)
+// a positive multiple of g is at least g (nonlinear; stated as an axiom together with the two above)
+//@ axiom divGE: forall(x int, forall(g int, x > 0 && g > 0 && mod(x, g) == 0 ==> x / g >= 1 && x / g <= x))
+// The queue handed to the shuffle (a permutation, trusted) lists every candidate at least once and nothing else.
+//@ func newBalancer
+//@   requires len(indices) <= 1024 && forall(k, 0, len(weights), 0 < weights[k] && weights[k] <= 1<<20)
+//@   loop 0 invariant 0 <= sum && sum <= (rangeindex + 1) * (1<<20)
+//@   loop 1 invariant (queue == nil || fresh(queue)) && len(queue) <= (rangeindex + 1) * (1<<20)
+//@   loop 1 invariant forall(k, 0, rangeindex + 1, mem(queue, indices[k])) && forall(q, 0, len(queue), mem(indices, queue[q]))
+//@   loop 2(j) invariant (queue == nil || fresh(queue)) && 0 <= j && j <= repeat && 1 <= repeat && repeat <= 1<<20 && len(queue) <= i * (1<<20) + j
+//@   loop 2(j) invariant case listed: forall(k, 0, i, mem(queue, indices[k])) && (j > 0 ==> mem(queue, idx))
+//@   loop 2(j) invariant case only:   forall(q, 0, len(queue), mem(indices, queue[q]))
+//@   assert at call Shuffle#0: forall(k, 0, len(indices), mem(b.roundRobinQ, indices[k])) && forall(q, 0, len(b.roundRobinQ), mem(indices, b.roundRobinQ[q]))
+//@   ensures case mismatch: len(indices) != len(weights) ==> ret1 != nil
+//@   ensures case empty:    len(indices) == len(weights) && len(indices) == 0 ==> ret0 == nil && ret1 == nil
+
 //@ func (*NodeInfo).IsStatusUp
 //@   requires n != nil
 //@   assigns \nothing
